@@ -54,12 +54,18 @@ class Cfg:
     """One traced differentiation."""
 
     def __init__(self, name, F, w, v, variation, cd=None, second=None, spatial=False, note=None,
-                 expect_raise=False, known_class=None):
+                 expect_raise=False, known_class=None, part2=None, form=None):
+        """second = (w2, v2, variation2[, cd2]): derivative of the derivative.
+        part2 = (F2, w2, v2, cd2, variation2, "sum"|"prod"): a second derivative node in the SAME
+        expression (one expand_derivatives call, one DerivativeRuleDispatcher).
+        form = (measure1, F2, w2, v2, cd2, variation2, measure2, which): two integrals of one Form
+        expanded in one call; the case is about the integrand of integral `which` (0 or 1)."""
         self.name, self.F, self.w, self.v, self.variation = name, F, w, v, variation
         self.cd, self.second, self.spatial = cd, second, spatial
         self.note = dict(note or {})
         self.expect_raise = expect_raise
         self.known_class = known_class
+        self.part2, self.form = part2, form
         self.out = None
         self.raised = None
 
@@ -67,8 +73,26 @@ class Cfg:
         try:
             d = derivative(self.F, self.w, self.v, coefficient_derivatives=self.cd)
             if self.second is not None:
-                w2, v2, _ = self.second
-                d = derivative(d, w2, v2)
+                w2, v2 = self.second[:2]
+                cd2 = self.second[3] if len(self.second) > 3 else None
+                d = derivative(d, w2, v2, coefficient_derivatives=cd2)
+            if self.part2 is not None:
+                F2, w2, v2, cd2, _, mode = self.part2
+                d2 = derivative(F2, w2, v2, coefficient_derivatives=cd2)
+                d = d + d2 if mode == "sum" else d * d2
+            if self.form is not None:
+                m1, F2, w2, v2, cd2, var2, m2, which = self.form
+                form = derivative(self.F * m1, self.w, self.v, coefficient_derivatives=self.cd) \
+                    + derivative(F2 * m2, w2, v2, coefficient_derivatives=cd2)
+                ex = expand_derivatives(form)
+                want = (m1, m2)[which].integral_type()
+                itg = [i for i in ex.integrals() if i.integral_type() == want]
+                if len(itg) != 1:
+                    raise RuntimeError(f"expected one {want} integral in the expanded form, got {len(itg)}")
+                self.out = itg[0].integrand()
+                if which == 1:      # the case is about the second integral
+                    self.F, self.variation = F2, var2
+                return self
             self.out = expand_derivatives(d)
         except Exception as ex:  # noqa: BLE001  (any exception is "raises")
             self.raised = f"{type(ex).__name__}: {ex}"[:200]
@@ -76,9 +100,15 @@ class Cfg:
 
     def case(self):
         nz = K.definedness(self.F)
+        if self.part2 is not None:
+            nz = nz + [e for e in K.definedness(self.part2[0]) if e not in nz]
         return K.DCase(self.name, self.F, self.out, self.variation,
                        variation2=self.second[2] if self.second else None, nonzero=nz,
-                       note=dict(self.note, F=str(self.F)[:160]), spatial=self.spatial)
+                       note=dict(self.note, F=str(self.F)[:160]), spatial=self.spatial,
+                       part2=self.oracle_part2())
+
+    def oracle_part2(self):
+        return (self.part2[0], self.part2[4], self.part2[5]) if self.part2 is not None else None
 
 
 def math_unary():
@@ -263,6 +293,36 @@ def configurations(tier, seed):
     cfgs.append(Cfg("i_grad2", grad(f)[0] * w, w, v, {w: v, f: df * v}, cd={f: df}, spatial=True,
                     known_class="grad-of-related-coefficient",
                     note={"w": "scalar", "coefficient_derivatives": "{f: df}", "rule": "Grad"}))
+    # L. several derivative nodes expanded in ONE call (shared dispatcher / ruleset caches) ---------
+    df2 = sc(())
+    vb1 = uflgen.arg(1, ())
+    P = [  # (name, F1, w1, v1, cd1, var1, F2, w2, v2, cd2, var2)
+        ("cd_cd", ufl.sin(f) * w, w, v, {f: df}, {w: v, f: df * v}, ufl.exp(f) * w, w, v, {f: df2}, {w: v, f: df2 * v}),
+        ("cd_lit", ufl.sin(f) * w, w, v, {f: 2}, {w: v, f: 2 * v}, ufl.exp(f), w, v, {f: 5}, {w: v, f: 5 * v}),
+        ("sameF", f * f * w, w, v, {f: df}, {w: v, f: df * v}, f * f * w, w, v, {f: df2}, {w: v, f: df2 * v}),
+        ("cd_none", f * w, w, v, {f: df}, {w: v, f: df * v}, f * w * w, w, v, None, {w: v}),
+        ("none_cd", f * w * w, w, v, None, {w: v}, f * w, w, v, {f: df}, {w: v, f: df * v}),
+        ("cd_keys", f * g * w, w, v, {f: df}, {w: v, f: df * v}, f * g * w, w, v, {g: df}, {w: v, g: df * v}),
+        ("dir", w * w * f, w, v, None, {w: v}, ufl.sin(w) * f, w, vb1, None, {w: vb1}),
+        ("dirc", w * w * f, w, v, None, {w: v}, w * w * f, w, vc, None, {w: vc}),
+        ("coef", w * w * f, w, v, None, {w: v}, w * f * f, f, v, None, {f: v}),
+        ("grad", inner(grad(w), grad(w)) * f, w, v, None, {w: v}, inner(grad(w), grad(f)), f, v, None, {f: v}),
+    ]
+    for nm, F1, w1_, v1_, cd1, var1, F2, w2_, v2_, cd2, var2 in P:
+        for mode in ("sum", "prod"):
+            cfgs.append(Cfg(f"l_{nm}_{mode}", F1, w1_, v1_, var1, cd=cd1, spatial=True,
+                            part2=(F2, w2_, v2_, cd2, var2, mode),
+                            note={"two derivative nodes in one expression": mode, "pair": nm}))
+    dxm, dsm = ufl.dx(uflgen.mesh("triangle")), ufl.ds(uflgen.mesh("triangle"))
+    for nm, F1, w1_, v1_, cd1, var1, F2, w2_, v2_, cd2, var2 in P[:6]:
+        for which in (0, 1):
+            cfgs.append(Cfg(f"l_{nm}_form{which}", F1, w1_, v1_, var1, cd=cd1, spatial=True,
+                            form=(dxm, F2, w2_, v2_, cd2, var2, dsm, which),
+                            note={"two integrals of one form": f"integrand {which}", "pair": nm}))
+    # derivative of a derivative with different relations at the two levels
+    cfgs.append(Cfg("l_nested_cd", ufl.sin(f) * w * w, w, va, {w: va, f: df * va}, cd={f: df},
+                    second=(w, vb, {w: vb, f: df2 * vb}, {f: df2}),
+                    note={"second derivative": True, "relations": "{f: df} inside, {f: df2} outside"}))
     # J. must raise (or be right): unsupported directions / operands -----------------------------
     cfgs.append(Cfg("r_dir_expr", inner(grad(w), grad(w)), w, f * v, {w: f * v}, spatial=True, expect_raise=True,
                     note={"v": "f*v (not an argument) under Grad"}))
@@ -403,10 +463,13 @@ def main(run):
         seen.add(case.name)
         c = by_name[case.name]
         w = K.derivative_oracle(c.F, c.out, c.variation, trials=30 if run.tier == "quick" else 200,
-                                seed=run.seed, variation2=c.second[2] if c.second else None)
+                                seed=run.seed, variation2=c.second[2] if c.second else None,
+                                part2=c.oracle_part2())
         rep = {"broken_obligation": lemma, "case": case.name, "note": c.note, "coq_message": msg,
                "F": str(c.F), "w": str(c.w), "v": str(c.v), "coefficient_derivatives": str(c.cd),
                "second": str(c.second[:2]) if c.second else None,
+               "second_node_in_same_expression": str(c.part2[:4] + c.part2[5:]) if c.part2 else None,
+               "form": str(c.form) if c.form else None,
                "implementation_result": str(c.out)[:2000],
                "reproduce": "expand_derivatives(derivative(F, w, v, coefficient_derivatives)) ; bin/check C02"}
         if w:
